@@ -104,6 +104,15 @@ class JSXTag:
         self.attrs: JSXTagAttrDict = JSXTagAttrDict(**kwargs)
         self.children: TagList = TagList(*args)
 
+    def __copy__(self) -> "JSXTag":
+        cls = self.__class__
+        cp = cls.__new__(cls)
+        # Like Tag.__copy__: instance fields (.attrs and .children) are shallow-copied,
+        # so that replacing items in the copy's fields doesn't alter the original.
+        new_dict = {key: copy.copy(value) for key, value in self.__dict__.items()}
+        cp.__dict__.update(new_dict)
+        return cp
+
     def extend(self, x: Iterable[TagNode]) -> None:
         self.children.extend(x)
 
@@ -127,14 +136,15 @@ class JSXTag:
                 metadata_nodes.append(x)
             return x
 
-        cp = copy.copy(self)
-        _walk_attrs_and_children(cp, tagify_tagifiable_and_get_metadata)
+        # The walker copies each Tag/JSXTag node before descending into it, so the
+        # result is a tagified copy and `self` is left unmodified.
+        cp = _walk_attrs_and_children(self, tagify_tagifiable_and_get_metadata)
 
         # When _render_react_js()  is called on a JSXTag object, we'll recurse, but
         # instead of calling the standard Tag.get_html_string() method to format the
         # object, we'll recurse using _render_react_js(), which descends into the tree
         # and formats objects appropriately for inside of a JSX element.
-        component = _render_react_js(self, 2, "\n")
+        component = _render_react_js(cp, 2, "\n")
 
         # Ideally, we'd use document.currentScript.after() to insert the component
         # directly after the script tag, but when dynamically rendered via jQuery (i.e.,
